@@ -43,6 +43,8 @@ def ob_to_dict(ob: Obligation, with_model=True):
          "info": {k: v for k, v in ob.info.items() if k in ("lock", "line", "field", "write", "callee", "expected", "cvc5_recheck")}}
     if ob.info.get("replay"):
         d["replay"] = ob.info["replay"]
+    if ob.info.get("replay_error"):
+        d["replay_error"] = ob.info["replay_error"]
     if ob.status == "failed" and with_model:
         d["model"] = solve.model_summary(ob.model)
         d["trace"] = [(str(a), bool(b)) for a, b in ob.info.get("trace", [])]
